@@ -1,6 +1,6 @@
 SPECIFICATION Spec
 CONSTANTS NKeys = 3
           MaxDiffs = 1
-          EmitEvery = 5
+          EmitEvery = 11
 INVARIANTS FastCorrect BinaryCorrect Emit
 CHECK_DEADLOCK FALSE
